@@ -104,6 +104,11 @@ func init() {
 					add(1, t, 1, 1, 4, c)
 					add(1, t, 0, 1, 4, c)
 				}
+				// the remaining field types (Int16, Int64, Float32, Byte, Uint8), alone: their decoding is compared with
+				// the library-free decoder of the harness
+				for _, c := range ints(10, 11, 12, 13, 14) {
+					add(1, t, 0, 0, 5, c)
+				}
 				pairs := [][]int{{0, 1}, {1, 0}, {1, 2}, {2, 0}, {0, 2}, {2, 3}, {0, 0}, {1, 7}, {9, 7}, {3, 5}}
 				if th {
 					pairs = nil
